@@ -6,7 +6,7 @@
   * `eq_ignore_ascii_case` ↔ equality of lower-cased octets; the spec's `lower` = `lowerU8`;
   * generic theorems about a `FromStr` impl (`parseWith`) under three decidable conditions on its
     table (`NoWord`, `Distinct`, `RowsParse`), instantiated in `QV.Properties.C17` on the generated
-    tables by `decide`.
+    tables by `decide`; the mnemonic arms see the upper-cased text (`normaliseBy`).
 -/
 import QV.Model.Codes
 import QV.Spec.Codes
@@ -282,15 +282,39 @@ theorem Distinct.functional {tbl} (h : Distinct tbl) : Functional tbl := by
   intro r hr r' hr' e
   rw [h r hr r' hr' (by rw [e])]
 
+/-- the table's mnemonics are written in upper case (so that they can match an upper-cased text) -/
+def AllUpper (tbl : List (Text × Nat)) : Prop := ∀ r ∈ tbl, r.1.map upperU8 = r.1
+
+theorem lower_upper (b : UInt8) : lowerU8 (upperU8 b) = lowerU8 b := by
+  revert b; apply forall_uint8; unfold lowerU8 upperU8; decide +kernel
+
+theorem upper_lower (b : UInt8) : upperU8 (lowerU8 b) = upperU8 b := by
+  revert b; apply forall_uint8; unfold lowerU8 upperU8; decide +kernel
+
+theorem map_lower_upper (t : Text) : (t.map upperU8).map lowerU8 = t.map lowerU8 := by
+  simp [List.map_map, Function.comp_def, lower_upper]
+
+/-- texts equal up to case have the same upper-casing -/
+theorem map_upper_of_lower {a b : Text} (h : a.map lowerU8 = b.map lowerU8) :
+    a.map upperU8 = b.map upperU8 := by
+  have := congrArg (List.map upperU8) h
+  simpa [List.map_map, Function.comp_def, upper_lower] using this
+
+abbrev UP : String := "to_ascii_uppercase"
+
+theorem normaliseBy_up (t : Text) : normaliseBy UP t = t.map upperU8 := by
+  simp [normaliseBy, UP]
+
 theorem parseWith_generic (tbl : List (Text × Nat)) (word : Text) (n : Nat) (hw : word.length = n)
     (hnw : NoWord tbl word) (p ds : Text) (v : Nat) (hp : p.map lowerU8 = word.map lowerU8)
-    (hd : IsDecimal ds v) (hv : v < 65536) : parseWith tbl word n n (p ++ ds) = .ok v := by
+    (hd : IsDecimal ds v) (hv : v < 65536) : parseWith tbl UP word n n (p ++ ds) = .ok v := by
   have hpl : p.length = word.length := map_lower_length hp
-  have hl : lookupParse tbl (p ++ ds) = none := by
-    rw [lookupParse_none_iff]
+  have hl : lookupParse tbl (normaliseBy UP (p ++ ds)) = none := by
+    rw [lookupParse_none_iff, normaliseBy_up]
     intro r hr e
     apply hnw r hr
-    rw [← e, ← hpl]; simpa using hp
+    rw [← e, ← hpl, ← hp, ← map_lower_upper p]
+    simp
   unfold parseWith
   rw [hl]
   simp only
@@ -303,68 +327,59 @@ theorem parseWith_generic (tbl : List (Text × Nat)) (word : Text) (n : Nat) (hw
     have := isDecimal_all_digits hd x (by simp)
     simp [isDigit] at this; omega
 
-theorem parseWith_exact (tbl : List (Text × Nat)) (word : Text) (n k : Nat) (hd : Distinct tbl)
-    (m : Text) (v : Nat) (h : (m, v) ∈ tbl) : parseWith tbl word n k m = .ok v := by
+/-- **mnemonics are case-insensitive**: any text equal up to ASCII case to a mnemonic of the table
+    parses to that mnemonic's value -/
+theorem parseWith_mnemonic (tbl : List (Text × Nat)) (word : Text) (n k : Nat) (hd : Distinct tbl)
+    (hu : AllUpper tbl) (m : Text) (v : Nat) (h : (m, v) ∈ tbl) (s : Text)
+    (hs : s.map lowerU8 = m.map lowerU8) : parseWith tbl UP word n k s = .ok v := by
   unfold parseWith
-  rw [lookupParse_mem tbl hd.functional m v h]
+  have : normaliseBy UP s = m := by
+    rw [normaliseBy_up, map_upper_of_lower hs]; exact hu (m, v) h
+  rw [this, lookupParse_mem tbl hd.functional m v h]
 
-theorem parseWith_variant (tbl : List (Text × Nat)) (word : Text) (n k : Nat) (hw : word.length = n)
-    (hnw : NoWord tbl word) (hd : Distinct tbl) (m : Text) (v : Nat) (h : (m, v) ∈ tbl) (s : Text)
-    (hs : s.map lowerU8 = m.map lowerU8) (hne : s ≠ m) :
-    parseWith tbl word n k s = .err .Unknown := by
-  have hl : lookupParse tbl s = none := by
-    rw [lookupParse_none_iff]
-    intro r hr e
-    have := hd r hr (m, v) h (by rw [← e]; exact hs)
-    apply hne; rw [e, this]
+theorem parseWith_no_panic (tbl : List (Text × Nat)) (how : String) (word : Text) (n : Nat) (t : Text) :
+    parseWith tbl how word n n t ≠ .panic := by
   unfold parseWith
-  rw [hl]
-  simp only
-  apply generic_unknown
-  have := hnw (m, v) h
-  intro e
-  apply this
-  rw [← hw] at e
-  rw [← e, List.map_take, List.map_take, hs]
-
-theorem parseWith_no_panic (tbl : List (Text × Nat)) (word : Text) (n : Nat) (t : Text) :
-    parseWith tbl word n n t ≠ .panic := by
-  unfold parseWith
-  cases lookupParse tbl t with
+  cases lookupParse tbl (normaliseBy how t) with
   | some v => simp
   | none => exact generic_no_panic word n t
 
-/-- display rows parse back: for every value's first `Display` arm, the text is a mnemonic arm of
-    `FromStr` with that value -/
+/-- display rows parse back: for every value's first `Display` arm, the (upper-cased) text is a
+    mnemonic arm of `FromStr` with that value -/
 def RowsParse (dtbl : List (Nat × String)) (tbl : List (Text × Nat)) : Prop :=
-  ∀ d ∈ dtbl, lookupDisplay dtbl d.1 = some d.2 → lookupParse tbl (bytesOf d.2) = some d.1
+  ∀ d ∈ dtbl, lookupDisplay dtbl d.1 = some d.2 →
+    lookupParse tbl ((bytesOf d.2).map upperU8) = some d.1
 
 theorem parseWith_display (tbl : List (Text × Nat)) (word : Text) (n : Nat) (hw : word.length = n)
     (hnw : NoWord tbl word) (dtbl : List (Nat × String)) (pre : String)
     (hpre : (bytesOf pre).map lowerU8 = word.map lowerU8) (hrows : RowsParse dtbl tbl)
-    (v : Nat) (hv : v < 65536) : parseWith tbl word n n (displayWith dtbl pre v) = .ok v := by
+    (v : Nat) (hv : v < 65536) : parseWith tbl UP word n n (displayWith dtbl pre v) = .ok v := by
   unfold displayWith
   cases hl : lookupDisplay dtbl v with
   | some s =>
     have hm := lookupDisplay_some_mem dtbl v s hl
     have := hrows (v, s) hm hl
-    simp only [parseWith, this]
+    simp only [parseWith, normaliseBy_up, this]
   | none =>
     exact parseWith_generic tbl word n hw hnw _ _ v hpre (dec_isDecimal v) hv
 
 /-! ### Qtype / Qclass: own arms first, then the delegate's -/
 
 theorem qtypeFromStr_eq (t : Text) :
-    qtypeFromStr t = parseWith (qtypeTable ++ typeTable) typeWord Gen.typeParseGetEnd Gen.typeParseSliceFrom t := by
+    qtypeFromStr t = parseWith (qtypeTable ++ typeTable) UP typeWord Gen.typeParseGetEnd Gen.typeParseSliceFrom t := by
+  have h1 : Gen.qtypeParseNormalise = UP := by decide
+  have h2 : Gen.typeParseNormalise = UP := by decide
   unfold qtypeFromStr typeFromStr parseWith
-  rw [lookupParse_append]
-  cases lookupParse qtypeTable t <;> simp
+  rw [lookupParse_append, h1, h2]
+  cases lookupParse qtypeTable (normaliseBy UP t) <;> simp
 
 theorem qclassFromStr_eq (t : Text) :
-    qclassFromStr t = parseWith (qclassTable ++ classTable) classWord Gen.classParseGetEnd Gen.classParseSliceFrom t := by
+    qclassFromStr t = parseWith (qclassTable ++ classTable) UP classWord Gen.classParseGetEnd Gen.classParseSliceFrom t := by
+  have h1 : Gen.qclassParseNormalise = UP := by decide
+  have h2 : Gen.classParseNormalise = UP := by decide
   unfold qclassFromStr classFromStr parseWith
-  rw [lookupParse_append]
-  cases lookupParse qclassTable t <;> simp
+  rw [lookupParse_append, h1, h2]
+  cases lookupParse qclassTable (normaliseBy UP t) <;> simp
 
 theorem qtypeDisplay_eq (v : Nat) :
     qtypeDisplay v = displayWith (Gen.qtypeDisplay ++ Gen.typeDisplay) Gen.typeDisplayPrefix v := by
